@@ -9,9 +9,9 @@ open S3V.StoreSpec
 macro "decide_pred" : tactic =>
   `(tactic| repeat' first | infer_instance | apply instDecidableAnd | apply instDecidableOr | refine @forall_prop_decidable _ _ inferInstance (fun _ => ?_) | split)
 
-instance (s : State) (b k : Bytes) (md : Option Meta) : Decidable (PutOk s b k md) := by
+instance (s : State) (b k : Bytes) : Decidable (PutOk s b k) := by
   unfold PutOk; decide_pred
-instance (s : State) (b k : Bytes) (r : Option Range) : Decidable (GetOk s b k r) := by
+instance (s : State) (b k : Bytes) : Decidable (GetOk s b k) := by
   unfold GetOk; decide_pred
 instance (s : State) (b k : Bytes) : Decidable (HeadOk s b k) := by
   unfold HeadOk; decide_pred
@@ -51,8 +51,8 @@ def Good (s : State) : Op → Prop
   | .headBucket b => NameOk b
   | .getBucketLocation b => NameOk b
   | .listBuckets => True
-  | .putObject b k _ md _ _ => PutOk s b k md
-  | .getObject b k r => GetOk s b k r
+  | .putObject b k _ _ _ _ => PutOk s b k
+  | .getObject b k _ => GetOk s b k
   | .headObject b k => HeadOk s b k
   | .deleteObject b k => DeleteOk s b k
   | .deleteObjects b ks => DeleteObjectsOk s b ks
@@ -85,8 +85,8 @@ theorem step_refines (H : Hashes) (dl : Nat) {s : State} (hi : Inv s) {op : Op} 
   | getBucketLocation b => have := getBucketLocation_refines H dl hi hg; exact ⟨core_congr this.1, this.2⟩
   | listBuckets => have := listBuckets_refines H dl hi; exact ⟨core_congr this.1, this.2⟩
   | putObject b k c md cks clen =>
-    have := put_refines H dl hi (c := c) (cks := cks) (clen := clen) hg; exact ⟨core_congr this.1, this.2⟩
-  | getObject b k r => have := get_refines H dl hi hg; exact ⟨core_congr this.1, this.2⟩
+    have := put_refines H dl hi (c := c) (md := md) (cks := cks) (clen := clen) hg; exact ⟨core_congr this.1, this.2⟩
+  | getObject b k r => have := get_refines H dl hi (range := r) hg; exact ⟨core_congr this.1, this.2⟩
   | headObject b k => exact head_refines H dl hi hg
   | deleteObject b k => have := delete_refines H dl hi hg; exact ⟨core_congr this.1, this.2⟩
   | deleteObjects b ks => have := deleteObjects_refines H dl hi hg; exact ⟨core_congr this.1, this.2⟩
